@@ -321,6 +321,9 @@ def checkLine (f : Fields) (ans : Fields) (panicked : Bool) : Verdict :=
         | some ps => if enc == "16" then piecesUnits16 tcp ps else piecesChars ps
       let v := v.add (mroOut == ro) "M:ro"
       let v := v.add ((getF ans "BOR" == "1") == mro.isNone) "M:bor"
+      -- the same line asked again after OTHER lines were asked of the same analysis object must give the same
+      -- answers (a result remembered across calls would show here); it counts against the three line properties
+      let v := (((v.add (getF ans "REP" != "0") "S:C03").add (getF ans "REP" != "0") "S:C05").add (getF ans "REP" != "0") "S:C06")
       -- Spec C03
       let perChar := lineSegs.map (fun s => (c.getD s.start .ON, l.getD s.start 0))
       let l1 := Spec.lineLevels pl perChar
@@ -473,6 +476,16 @@ def checkU16 (f : Fields) (ans : Fields) (panicked : Bool) : Verdict :=
     let v := v.add (getF ans "LEN" == toString u.length && (lo.map (·.2)).foldl (· + ·) 0 == u.length) "S:C18"
     let sit := String.intercalate "," (dequeSim (lo.map (·.1)) ops)
     let v := v.add (getF ans "IT" == sit) "S:C18"
+    -- the other Iterator methods (nth, nth_back, skip+step_by, rev, count, last, size_hint), from the lossy decoding
+    let cs := lo.map (·.1)
+    let hx (o : Option Nat) : String := match o with | some c => hexStr c | none => "-"
+    let n := cs.length
+    let nth := String.intercalate "," ((List.range (u.length + 2)).map (fun k => hx cs[k]?))
+    let nthb := String.intercalate "," ((List.range (u.length + 2)).map (fun k => hx (if k < n then cs[n - 1 - k]? else none)))
+    let step := String.intercalate "," (((cs.drop 1).zipIdx.filter (fun p => p.2 % 2 == 0)).map (fun p => hexStr p.1))
+    let rev := String.intercalate "," (cs.reverse.map hexStr)
+    let meth := s!"{nth}|{nthb}|{step}|{rev}|{n}|{hx cs.getLast?}|1"
+    let v := v.add (getF ans "METH" == meth) "S:C18"
     -- subrange over every pair of character boundaries (reported only for texts of at most 8 characters)
     let t := Utf16.toText u
     let v := v.add (getF ans "SUB" == subStr t) "M:iter"
@@ -563,7 +576,10 @@ def checkLvl (f : Fields) (ans : Fields) (panicked : Bool) : Verdict :=
     let v := v.add (getF ans "RAISE" == sraise && getF ans "RAISEX" == sraisex && getF ans "LOWER" == slower) "S:C19"
     let scmp := String.ofList ((List.range 127).map (fun m => if l < m then '<' else if l == m then '=' else '>'))
     let v := v.add (getF ans "CMP" == scmp) "S:C19"
-    v.add (getF ans "STREQ" == "1") "S:C19"
+    let v := v.add (getF ans "STREQ" == "1") "S:C19"
+    -- all six relational operators, partial_cmp, max/min against every level agree with the numbers; string
+    -- equality is false for every other number and for padded / signed / wrapped spellings
+    (v.add (getF ans "REL" == "1") "S:C19").add (getF ans "NSTREQ" == "0") "S:C19"
 
 def checkU8 (f : Fields) (ans : Fields) : Verdict :=
   let n := (getF f "n").toNat?.getD 0
@@ -613,6 +629,8 @@ def checkCls (ans : Fields) : Verdict :=
     | some c => { (v.add false "S:C14") with stats := v.stats ++ s!" refdiff@{hexStr c}" }
     | none => v
   let v := v.add (getF ans "SAME" == "1") "S:C14"
+  -- "a total function whose answer does not depend on search order": descending, permuted and ping-pong probes
+  let v := if getF ans "ORDER" != "same" then { (v.add false "S:C14") with stats := v.stats ++ s!" order-dependent@{getF ans "ORDER"}" } else v
   let v := if getF ans "PANICS" != "" then { (v.add false "S:C14") with stats := v.stats ++ s!" lookup-panics@{getF ans "PANICS"}" } else v
   -- C15: every bracket character of the reference has class ON in the crate's table
   let crateCls (c : Nat) : BidiClass := ((rs.find? (fun r => r.1 ≤ c && c ≤ r.2.1)).map (·.2.2)).getD .L
@@ -760,6 +778,7 @@ def processLine (line : String) : Option String :=
         | "ver" => checkVer ans
         | "meta9" => checkEq "C09" ans
         | "meta10" => checkEq "C10" ans
+        | "metalong" => checkEq "C01" ans
         | "meta12" => checkEq "C12" ans
         | "meta13" => checkEq "C13" ans
         | "digest" => {}
